@@ -77,6 +77,30 @@ type ContractSet struct {
 	Tables    map[string][]string // named tables (e.g. pairs), raw lines
 	Files     []string
 	TraceDecls []*Trace
+	TypeInvs  map[string][]*TypeInv // Go type string -> assumed invariants of values of that type (parser invariants)
+	PkgInvs   []*PkgInv
+}
+
+// TypeInv: an assumed invariant of every value of a (foreign) type that the parsers build:
+//   typeinv *crypto/dsa.PublicKey (k): k.P != nil && k.Q != nil
+// Only accepted in /verif/spec/*.contracts (never in /repo): it describes code that is not verified.
+type TypeInv struct {
+	Type, Var, Text string
+	File            string
+	Line            int
+}
+
+// PkgInv: an invariant over package-level state of a module package:
+//   pkginv rnNonNil() by init@ip.go
+// established by the named initialiser (whose contract carries the invariant as an ensures clause
+// and is verified under the same property) or by a named census, and stable because nothing
+// outside package initialisation writes the state it mentions (census obligation).
+type PkgInv struct {
+	Name, Text, By string
+	Pkg            string
+	Props          []string
+	File           string
+	Line           int
 }
 
 var clauseKeywords = map[string]bool{
@@ -85,7 +109,7 @@ var clauseKeywords = map[string]bool{
 	"let": true, "mode": true, "atcall": true, "assume": true, "havoc": true, "exceptional": true,
 }
 
-var headRe = regexp.MustCompile(`^(func|interface|field|extern|spec|lemma|table|axiom|trace)\b`)
+var headRe = regexp.MustCompile(`^(func|interface|field|extern|spec|lemma|table|axiom|trace|typeinv|pkginv)\b`)
 var propsRe = regexp.MustCompile(`\[(C[0-9]{2}(?:[ ,]+C[0-9]{2})*)\]`)
 
 func stripRemark(s string) string {
@@ -127,6 +151,7 @@ func (cs *ContractSet) LoadContractFile(path, pkgPath string) error {
 	var curSpec *SpecFunc
 	var curLemma *Lemma
 	var curTable string
+	var curTI *TypeInv
 	ln := 0
 	for sc.Scan() {
 		ln++
@@ -146,7 +171,7 @@ func (cs *ContractSet) LoadContractFile(path, pkgPath string) error {
 			continue
 		}
 		if hm := headRe.FindString(tb); hm != "" {
-			cur, curClause, curSpec, curLemma, curTable = nil, nil, nil, nil, ""
+			cur, curClause, curSpec, curLemma, curTable, curTI = nil, nil, nil, nil, "", nil
 			rest := strings.TrimSpace(tb[len(hm):])
 			switch hm {
 			case "func", "interface", "field", "extern":
@@ -201,6 +226,30 @@ func (cs *ContractSet) LoadContractFile(path, pkgPath string) error {
 					return fmt.Errorf("%s:%d: trace <kind> <key> as <Tag>", path, ln)
 				}
 				cs.TraceDecls = append(cs.TraceDecls, &Trace{Kind: fs[0], Key: strings.Join(fs[1:len(fs)-2], " "), Pkg: pkgPath, Tag: fs[len(fs)-1]})
+			case "typeinv":
+				// typeinv <type> (x): expr
+				if pkgPath != "" {
+					return fmt.Errorf("%s:%d: typeinv (an assumption about foreign code) is only accepted in /verif/spec", path, ln)
+				}
+				i := strings.Index(rest, "):")
+				j := strings.LastIndex(rest[:maxI(i, 0)], "(")
+				if i < 0 || j < 0 {
+					return fmt.Errorf("%s:%d: typeinv <type> (x): expr", path, ln)
+				}
+				ti := &TypeInv{Type: strings.TrimSpace(rest[:j]), Var: strings.TrimSpace(rest[j+1 : i]), Text: strings.TrimSpace(rest[i+2:]), File: path, Line: ln}
+				if cs.TypeInvs == nil {
+					cs.TypeInvs = map[string][]*TypeInv{}
+				}
+				cs.TypeInvs[ti.Type] = append(cs.TypeInvs[ti.Type], ti)
+				curTI = ti
+			case "pkginv":
+				// pkginv <expr> by <initialiser | census:name>
+				props, rest2 := parseProps(rest)
+				i := strings.LastIndex(rest2, " by ")
+				if i < 0 || pkgPath == "" {
+					return fmt.Errorf("%s:%d: pkginv <expr> by <establisher> (in a package contract file)", path, ln)
+				}
+				cs.PkgInvs = append(cs.PkgInvs, &PkgInv{Name: strings.TrimSpace(rest2[:i]), Text: strings.TrimSpace(rest2[:i]), By: strings.TrimSpace(rest2[i+4:]), Pkg: pkgPath, Props: props, File: path, Line: ln})
 			case "table":
 				curTable = strings.TrimSpace(rest)
 				if cs.Tables[curTable] == nil {
@@ -274,6 +323,8 @@ func (cs *ContractSet) LoadContractFile(path, pkgPath string) error {
 			curClause.Text += " " + tb
 		case curSpec != nil:
 			curSpec.Body += " " + tb
+		case curTI != nil:
+			curTI.Text += " " + tb
 		case curLemma != nil:
 			curLemma.Text += " " + tb
 		default:
@@ -394,4 +445,11 @@ func (c *Contract) LoopClauses(n int, kind string) []*Clause {
 		}
 	}
 	return out
+}
+
+func maxI(a, b int) int {
+	if a > b {
+		return a
+	}
+	return b
 }
